@@ -1165,7 +1165,9 @@ Qed.
 Lemma frag_chars c : frag15 c = true -> chars_of None c = None.
 Proof.
   induction c using content_ind'; cbn [frag15 chars_of]; intros F; try reflexivity; try discriminate; auto.
-  destruct shape as [|n [|m t]]; reflexivity.
+  - destruct shape as [|n [|m t]]; reflexivity.
+  - destruct arr as [k|]; [|auto]. unfold str_chars in F.
+    destruct c; cbn [list_content] in F; try discriminate F; reflexivity.
 Qed.
 
 Lemma pairs_get_gen o : forall pre,
@@ -1324,6 +1326,154 @@ Proof. intros E (e & He & Hv). exists e. split; [rewrite E; exact He | exact Hv]
 Lemma item_ok_null o c i : item o None c i = Ok [ENull] -> item_ok o c i VNone.
 Proof. intros E. exists [ENull]. split; [exact E | constructor]. Qed.
 
+(* ---- strings *)
+Lemma numpy1_to_list dt n data vs : to_list (Numpy dt [n] data) = Ok vs ->
+  0 <= n <= zlen data /\ vs = map (leaf dt) (take n data).
+Proof.
+  cbn [to_list existsb orb]. rewrite orb_false_r. destruct (n <? 0) eqn:En; [discriminate|].
+  cbn [prodZ fold_right]. rewrite Z.mul_1_r. destruct (zlen data <? n) eqn:Ed; [discriminate|].
+  cbn [nest bind]. intros H. injection H as <-. split; [lia | reflexivity].
+Qed.
+
+Lemma list_content_to_list L cc vs : list_content L = Some cc -> to_list L = Ok vs -> exists cs, to_list cc = Ok cs.
+Proof.
+  intros HL T. destruct L; try discriminate HL; cbn [list_content] in HL; injection HL as ->;
+    cbn [to_list] in T; inv_bind T; eauto.
+Qed.
+
+Lemma str_chars_inv k c d : str_chars k c = Some d ->
+  exists cc k' rn n, list_content c = Some cc /\ cc = Par (Some k') rn (Numpy DUInt8 [n] d) /\
+    ((k = AString /\ k' = AChar) \/ (k = ABytestring /\ k' = AByte)).
+Proof.
+  unfold str_chars. destruct (list_content c) as [cc|]; [|discriminate].
+  destruct cc; try discriminate. destruct arr as [k'|]; try discriminate.
+  destruct cc; try discriminate. destruct dt; try discriminate.
+  destruct shape as [|n [|? ?]]; try discriminate.
+  destruct k, k'; try discriminate; intros H; injection H as <-; eauto 10.
+Qed.
+
+Lemma take_drop_take {A} (l : list A) a k n : (a + k <= n)%nat ->
+  firstn k (skipn a (firstn n l)) = firstn k (skipn a l).
+Proof.
+  intros H. rewrite !firstn_skipn_comm. rewrite firstn_firstn. f_equal. f_equal. lia.
+Qed.
+
+Lemma Forall_firstn {A} (P : A -> Prop) k : forall l, Forall P l -> Forall P (firstn k l).
+Proof. induction k; intros l H; [constructor|]. destruct H; cbn; constructor; auto. Qed.
+Lemma Forall_skipn {A} (P : A -> Prop) k : forall l, Forall P l -> Forall P (skipn k l).
+Proof. induction k; intros l H; [exact H|]. destruct H; cbn; [constructor | auto]. Qed.
+
+Lemma bytes_str ds : Forall (fun d => byte_datum d = true) ds -> forall zs,
+  bytes_of (VList (map (leaf DUInt8) ds)) = Ok zs -> str_of DUInt8 ds = Ok [EStr zs].
+Proof.
+  unfold bytes_of, str_of. induction 1 as [|d ds Hd _ IH]; intros zs H; cbn [map mapM] in *.
+  - injection H as <-. reflexivity.
+  - destruct d as [z| |]; try discriminate Hd. cbn [leaf] in H. cbn [bind] in H. inv_bind H. injection H as <-.
+    specialize (IH _ E). inv_bind IH. injection IH as <-.
+    cbn [byte_of bind]. rewrite E0. cbn [bind]. cbn in Hd. unfold is_byte in Hd.
+    rewrite Z.mod_small by lia. reflexivity.
+Qed.
+
+(* one string: the range (a, b) of the character buffer *)
+Lemma string_item (item0 : Z -> res (list ev)) n d a b l zs :
+  0 <= n <= zlen d -> Forall (fun x => byte_datum x = true) d ->
+  cut1 (map (leaf DUInt8) (take n d)) (a, b) = Ok l -> bytes_of (VList l) = Ok zs ->
+  range_events item0 (Some (DUInt8, d)) a b = Ok [EStr zs].
+Proof.
+  intros Hn Hd Hc Hb. unfold range_events. unfold cut1 in Hc. destruct (a =? b) eqn:E.
+  - injection Hc as <-. cbn in Hb. injection Hb as <-. reflexivity.
+  - destruct (slice_inv _ _ _ _ Hc) as (Ha & Hab & Hbn & ->).
+    rewrite zlen_map, take_zlen in Hbn by lia.
+    unfold slice. replace ((0 <=? a) && (a <=? b) && (b <=? zlen d)) with true by lia. cbn [bind].
+    unfold take, drop in *. rewrite skipn_map, firstn_map in Hb.
+    rewrite take_drop_take in Hb by lia.
+    apply bytes_str; [apply Forall_firstn, Forall_skipn; exact Hd | exact Hb].
+Qed.
+
+Lemma forallb_Forall_true {A} (f : A -> bool) l : forallb f l = true -> Forall (fun x => f x = true) l.
+Proof. intros H. apply Forall_forall. rewrite forallb_forall in H. exact H. Qed.
+
+Lemma Forall2_map_l_inv {A B C} (R : C -> B -> Prop) (g : A -> C) l : forall l',
+  Forall2 R (map g l) l' -> Forall2 (fun x y => R (g x) y) l l'.
+Proof. induction l; intros l' H; inversion H; subst; constructor; auto. Qed.
+
+Lemma Forall2_map_l {A B C} (R : C -> B -> Prop) (g : A -> C) l l' :
+  Forall2 (fun x y => R (g x) y) l l' -> Forall2 R (map g l) l'.
+Proof. induction 1; cbn; constructor; auto. Qed.
+
+(* the three list classes, seen as: item i of the node = the range (a_i, b_i) of its content *)
+Lemma list_view o L cc cs vs : list_content L = Some cc -> to_list cc = Ok cs -> to_list L = Ok vs ->
+  clen cc = zlen cs ->
+  clen L = zlen vs /\
+  exists abs ls, vs = map VList ls /\ Forall2 (fun ab l => cut1 cs ab = Ok l) abs ls /\
+    Forall2 (fun i (ab : Z * Z) => forall p, item o p L i =
+               range_events (item o None cc) (chars_of None cc) (fst ab) (snd ab)) (iota (zlen vs)) abs.
+Proof.
+  intros HL E T Hlen. destruct L; try discriminate HL; cbn [list_content] in HL; injection HL as ->.
+  - (* ListOffset *)
+    cbn [to_list] in T. rewrite E in T. cbn [bind] in T.
+    destruct (cut cs offsets) as [ls|] eqn:Ec; [|discriminate]. cbn [rmap] in T. injection T as <-.
+    unfold cut in Ec. destruct offsets as [|o0 offs']; [discriminate|]. set (offs := o0 :: offs') in *.
+    apply mapM_Forall2 in Ec. pose proof (Forall2_len _ _ _ Ec) as Hl.
+    assert (Hz : zlen ls = zlen (pairs offs)) by (unfold zlen; lia).
+    rewrite zlen_map. split.
+    + cbn [clen]. rewrite Hz. unfold zlen. rewrite pairs_length by (subst offs; discriminate). subst offs. cbn [length]. lia.
+    + exists (pairs offs), ls. split; [reflexivity|]. split; [exact Ec|]. rewrite Hz.
+      eapply Forall2_imp; [|apply pairs_get]. cbn beta. intros i [a b] (G1 & G2) p. cbn [fst snd] in *.
+      cbn [item]. rewrite G1, G2. reflexivity.
+  - (* ListArray *)
+    cbn [to_list] in T. rewrite E in T. cbn [bind] in T.
+    destruct (cut2 cs starts stops) as [ls|] eqn:Ec; [|discriminate]. cbn [rmap] in T. injection T as <-.
+    unfold cut2 in Ec. destruct (zlen stops <? zlen starts) eqn:Es; [discriminate|].
+    apply mapM_Forall2 in Ec. pose proof (Forall2_len _ _ _ Ec) as Hl.
+    assert (Hz : zlen ls = zlen (zip starts stops)) by (unfold zlen; lia).
+    rewrite zlen_map. split.
+    + cbn [clen]. rewrite Hz. unfold zlen in *. rewrite zip_length_le by lia. reflexivity.
+    + exists (zip starts stops), ls. split; [reflexivity|]. split; [exact Ec|]. rewrite Hz.
+      eapply Forall2_imp; [|apply zip_get]. cbn beta. intros i [a b] (G1 & G2) p. cbn [fst snd] in *.
+      cbn [item]. rewrite G1, G2. reflexivity.
+  - (* RegularArray *)
+    cbn [to_list] in T. rewrite E in T. cbn [bind] in T.
+    destruct (chunks cs size zeros_length) as [ls|] eqn:Ec; [|discriminate]. cbn [rmap] in T. injection T as <-.
+    unfold chunks in Ec. destruct (size <? 0) eqn:Es; [discriminate|].
+    rewrite zlen_map. destruct (size =? 0) eqn:E0.
+    + destruct (zeros_length <? 0) eqn:Ez; [discriminate|]. injection Ec as <-.
+      rewrite zlen_map, zlen_iota by lia. split; [cbn [clen]; rewrite E0; reflexivity|].
+      exists (map (fun i => (i * size, (i + 1) * size)) (iota zeros_length)), (map (fun _ => []) (iota zeros_length)).
+      split; [reflexivity|]. split.
+      * apply Forall2_map_l, Forall2_map_r. apply Forall2_diag. intros i.
+        unfold cut1. replace (i * size =? (i + 1) * size) with true by nia. reflexivity.
+      * apply Forall2_map_r. apply Forall2_diag. intros i p. reflexivity.
+    + injection Ec as <-. set (count := Z.to_nat (zlen cs / size)).
+      pose proof (chunks_nat_spec size ltac:(lia) count cs 0) as CS.
+      pose proof (Forall2_len _ _ _ CS) as CL. rewrite iota_nat_length in CL.
+      assert (Hq : 0 <= zlen cs / size) by (apply Z.div_pos; unfold zlen; lia).
+      assert (Hz : zlen (chunks_nat cs size count) = zlen cs / size) by (unfold zlen at 1; rewrite <- CL; subst count; lia).
+      rewrite Hz. split; [cbn [clen]; rewrite E0, Hlen; reflexivity|].
+      exists (map (fun i => (i * size, (i + 1) * size)) (iota_nat 0 count)), (chunks_nat cs size count).
+      split; [reflexivity|]. split.
+      * apply Forall2_map_l.
+        eapply Forall2_imp; [|exact CS]. cbn beta. intros i l (Hi & ->).
+        unfold cut1. replace (i * size =? (i + 1) * size) with false by nia.
+        unfold slice. pose proof (Z.mul_div_le (zlen cs) size ltac:(lia)).
+        replace ((0 <=? i * size) && (i * size <=? (i + 1) * size) && ((i + 1) * size <=? zlen cs)) with true by (subst count; nia).
+        do 3 f_equal; lia.
+      * unfold iota. fold count. apply Forall2_map_r. apply Forall2_diag. intros i p. reflexivity.
+Qed.
+
+Lemma Forall2_nth_r {A B} (R : A -> B -> Prop) l l' : Forall2 R l l' ->
+  forall k y, nth_error l' k = Some y -> exists x, nth_error l k = Some x /\ R x y.
+Proof.
+  induction 1 as [|x y0 l l' Hxy _ IH]; intros k y Hk; [destruct k; discriminate|].
+  destruct k; [injection Hk as <-; exists x; split; [reflexivity | exact Hxy] | apply IH; exact Hk].
+Qed.
+
+Lemma pick_nth_nth {A} (f : content -> res A) cs : forall k c, nth_error cs k = Some c -> pick_nth f cs k = f c.
+Proof.
+  induction cs as [|x cs IH]; intros k c H; [destruct k; discriminate|].
+  destruct k; [injection H as ->; reflexivity | cbn [pick_nth]; apply IH; exact H].
+Qed.
+
 Lemma item_spec o c : frag15 c = true -> u64ok c = true -> forall vs, to_list c = Ok vs ->
   clen c = zlen vs /\ Forall2 (item_ok o c) (iota (zlen vs)) vs.
 Proof.
@@ -1345,59 +1495,29 @@ Proof.
     + apply scalar_ev_val. intros ->. cbn [u64ok] in U. rewrite forallb_forall in U. apply U. eapply get_In; exact Hg.
   - (* Empty *) injection T as <-. split; [reflexivity | constructor].
   - (* ListOffset *)
-    cbn [frag15 u64ok] in F, U. cbn [to_list] in T. inv_bind T. rename x into vs'.
+    cbn [frag15 u64ok] in F, U. pose proof T as T0. cbn [to_list] in T0. inv_bind T0. rename x into vs'.
     destruct (IHc F U _ E) as (Hlen & HF).
-    destruct (cut vs' offs) as [ls|] eqn:Ec; [|discriminate]. cbn [rmap] in T. injection T as <-.
-    unfold cut in Ec. destruct offs as [|o0 offs']; [discriminate|]. set (offs := o0 :: offs') in *.
-    apply mapM_Forall2 in Ec. pose proof (Forall2_len _ _ _ Ec) as Hl.
-    assert (Hz : zlen ls = zlen (pairs offs)) by (unfold zlen; lia).
-    rewrite zlen_map. split.
-    + cbn [clen]. rewrite Hz. unfold zlen. rewrite pairs_length by (subst offs; discriminate). subst offs. cbn [length]. lia.
-    + apply Forall2_map_r. rewrite Hz.
-      eapply Forall2_idx; [apply pairs_get | exact Ec|]. cbn beta. intros i [a b] l (G1 & G2) Hc. cbn [fst snd] in *.
-      destruct (range_items o c vs' a b l (frag_chars c F) HF Hc) as (e & He & Hv).
-      exists e. split; [|exact Hv]. cbn [item]. rewrite G1, G2. exact He.
+    destruct (list_view o (ListOffset w offs c) c vs' vs eq_refl E T Hlen) as (Hl & abs & ls & -> & Hcut & Hit).
+    split; [exact Hl|]. apply Forall2_map_r.
+    eapply Forall2_idx; [exact Hit | exact Hcut|]. cbn beta. intros i [a b] l Hi Hc. cbn [fst snd] in *.
+    destruct (range_items o c vs' a b l (frag_chars c F) HF Hc) as (e & He & Hv).
+    exists e. split; [rewrite Hi; exact He | exact Hv].
   - (* ListArray *)
-    cbn [frag15 u64ok] in F, U. cbn [to_list] in T. inv_bind T. rename x into vs'.
+    cbn [frag15 u64ok] in F, U. pose proof T as T0. cbn [to_list] in T0. inv_bind T0. rename x into vs'.
     destruct (IHc F U _ E) as (Hlen & HF).
-    destruct (cut2 vs' ss se) as [ls|] eqn:Ec; [|discriminate]. cbn [rmap] in T. injection T as <-.
-    unfold cut2 in Ec. destruct (zlen se <? zlen ss) eqn:Es; [discriminate|].
-    apply mapM_Forall2 in Ec. pose proof (Forall2_len _ _ _ Ec) as Hl.
-    assert (Hz : zlen ls = zlen (zip ss se)) by (unfold zlen; lia).
-    rewrite zlen_map. split.
-    + cbn [clen]. rewrite Hz. unfold zlen in *. rewrite zip_length_le by lia. reflexivity.
-    + apply Forall2_map_r. rewrite Hz.
-      eapply Forall2_idx; [apply zip_get | exact Ec|]. cbn beta. intros i [a b] l (G1 & G2) Hc. cbn [fst snd] in *.
-      destruct (range_items o c vs' a b l (frag_chars c F) HF Hc) as (e & He & Hv).
-      exists e. split; [|exact Hv]. cbn [item]. rewrite G1, G2. exact He.
+    destruct (list_view o (ListA w ss se c) c vs' vs eq_refl E T Hlen) as (Hl & abs & ls & -> & Hcut & Hit).
+    split; [exact Hl|]. apply Forall2_map_r.
+    eapply Forall2_idx; [exact Hit | exact Hcut|]. cbn beta. intros i [a b] l Hi Hc. cbn [fst snd] in *.
+    destruct (range_items o c vs' a b l (frag_chars c F) HF Hc) as (e & He & Hv).
+    exists e. split; [rewrite Hi; exact He | exact Hv].
   - (* RegularArray *)
-    cbn [frag15 u64ok] in F, U. cbn [to_list] in T. inv_bind T. rename x into vs'.
+    cbn [frag15 u64ok] in F, U. pose proof T as T0. cbn [to_list] in T0. inv_bind T0. rename x into vs'.
     destruct (IHc F U _ E) as (Hlen & HF).
-    destruct (chunks vs' size zl) as [ls|] eqn:Ec; [|discriminate]. cbn [rmap] in T. injection T as <-.
-    unfold chunks in Ec. destruct (size <? 0) eqn:Es; [discriminate|].
-    rewrite zlen_map. destruct (size =? 0) eqn:E0.
-    + destruct (zl <? 0) eqn:Ez; [discriminate|]. injection Ec as <-.
-      rewrite zlen_map, zlen_iota by lia. split; [cbn [clen]; rewrite E0; reflexivity|].
-      apply Forall2_map_r, Forall2_map_r. apply Forall2_diag. intros i.
-      assert (Hc : cut1 vs' (i * size, (i + 1) * size) = Ok []).
-      { unfold cut1. replace (i * size =? (i + 1) * size) with true by nia. reflexivity. }
-      destruct (range_items o c vs' _ _ _ (frag_chars c F) HF Hc) as (e & He & Hv).
-      exists e. split; [exact He | exact Hv].
-    + injection Ec as <-. set (count := Z.to_nat (zlen vs' / size)).
-      pose proof (chunks_nat_spec size ltac:(lia) count vs' 0) as CS.
-      pose proof (Forall2_len _ _ _ CS) as CL. rewrite iota_nat_length in CL.
-      assert (Hq : 0 <= zlen vs' / size) by (apply Z.div_pos; unfold zlen; lia).
-      assert (Hz : zlen (chunks_nat vs' size count) = zlen vs' / size) by (unfold zlen at 1; rewrite <- CL; subst count; lia).
-      rewrite Hz. split; [cbn [clen]; rewrite E0, Hlen; reflexivity|].
-      apply Forall2_map_r. unfold iota. fold count.
-      eapply Forall2_imp; [|exact CS]. cbn beta. intros i l (Hi & ->).
-      assert (Hc : cut1 vs' (i * size, (i + 1) * size) = Ok (take size (drop ((i - 0) * size) vs'))).
-      { unfold cut1. replace (i * size =? (i + 1) * size) with false by nia.
-        unfold slice. pose proof (Z.mul_div_le (zlen vs') size ltac:(lia)).
-        replace ((0 <=? i * size) && (i * size <=? (i + 1) * size) && ((i + 1) * size <=? zlen vs')) with true by (subst count; nia).
-        do 3 f_equal; lia. }
-      destruct (range_items o c vs' _ _ _ (frag_chars c F) HF Hc) as (e & He & Hv).
-      exists e. split; [exact He | exact Hv].
+    destruct (list_view o (Regular c size zl) c vs' vs eq_refl E T Hlen) as (Hl & abs & ls & -> & Hcut & Hit).
+    split; [exact Hl|]. apply Forall2_map_r.
+    eapply Forall2_idx; [exact Hit | exact Hcut|]. cbn beta. intros i [a b] l Hi Hc. cbn [fst snd] in *.
+    destruct (range_items o c vs' a b l (frag_chars c F) HF Hc) as (e & He & Hv).
+    exists e. split; [rewrite Hi; exact He | exact Hv].
   - (* IndexedArray *)
     cbn [frag15 u64ok] in F, U. cbn [to_list] in T. inv_bind T. rename x into vs'.
     destruct (IHc F U _ E) as (Hlen & HF).
@@ -1443,7 +1563,25 @@ Proof.
     cbn [frag15 u64ok] in F, U. cbn [to_list] in T.
     destruct (IHc F U _ T) as (Hlen & HF). split; [exact Hlen|].
     eapply Forall2_imp; [|exact HF]. cbn beta. intros i v H. eapply item_ok_lift; [|exact H]. reflexivity.
-  - discriminate F.
+  - (* UnionArray *)
+    cbn [frag15 u64ok] in F, U. apply frag_all_Forall in F. apply frag_all_Forall in U.
+    cbn [to_list] in T. inv_bind T. rename x into vss. apply all_fix_Forall2 in E.
+    destruct (zlen ix <? zlen tags) eqn:El; [discriminate|].
+    apply mapM_Forall2 in T. pose proof (Forall2_len _ _ _ T) as Hl.
+    assert (Hzip : length (zip tags ix) = length tags) by (apply zip_length_le; unfold zlen in El; lia).
+    assert (Hz : zlen vs = zlen (zip tags ix)) by (unfold zlen; lia).
+    split; [cbn [clen]; unfold zlen in *; lia|]. rewrite Hz.
+    eapply Forall2_idx; [apply zip_get | exact T|]. cbn beta.
+    intros i [tg j] v (G1 & G2) Hv. cbn [fst snd] in *. inv_bind Hv. rename x into vs0.
+    assert (Htg : (tg <? 0) = false) by (unfold get in E0; destruct (tg <? 0); [discriminate | reflexivity]).
+    assert (N : nth_error vss (Z.to_nat tg) = Some vs0).
+    { unfold get in E0. rewrite Htg in E0. destruct (nth_error vss (Z.to_nat tg)); [congruence | discriminate]. }
+    destruct (Forall2_nth_r _ _ _ E _ _ N) as (c0 & Nc & Tc).
+    assert (Hc0 : In c0 cs) by (eapply nth_error_In; exact Nc).
+    rewrite Forall_forall in F, U, IHcs.
+    destruct (IHcs c0 Hc0 (F c0 Hc0) (U c0 Hc0) _ Tc) as (_ & HF0).
+    eapply item_ok_lift; [|eapply (Forall2_get _ _ _ _ HF0); exact Hv].
+    cbn [item]. rewrite G1, G2. cbn [bind]. rewrite Htg. exact (pick_nth_nth (fun x => item o None x j) cs _ _ Nc).
   - (* RecordArray *)
     cbn [frag15 u64ok] in F, U. apply frag_all_Forall in F. apply frag_all_Forall in U.
     cbn [to_list] in T. inv_bind T. rename x into vss. apply all_fix_Forall2 in E.
@@ -1474,7 +1612,37 @@ Proof.
       destruct (fields_row o i cs vss rowv (tuple_keys (length cs)) HC E0 (tuple_keys_length _)) as (body & Hb & Hk).
       exists (ESO :: body ++ [EEO]). split; [cbn [item]; rewrite Hb; reflexivity|].
       cbn [jv]. replace (length rowv) with (length cs) by lia. constructor. exact Hk.
-  - discriminate F.
+  - (* parameters *)
+    destruct arr as [k|].
+    + (* __array__ = string / bytestring *)
+      cbn [frag15] in F. destruct (str_chars k c) as [d|] eqn:Es; [|discriminate F].
+      destruct (str_chars_inv _ _ _ Es) as (cc & k' & rn' & n & HL & -> & Hk).
+      cbn [to_list] in T. inv_bind T. rename x into vsL.
+      destruct (list_content_to_list _ _ _ HL E) as (cs & Ecc).
+      assert (Ecs : to_list (Numpy DUInt8 [n] d) = Ok cs).
+      { cbn [to_list] in Ecc. inv_bind Ecc. destruct Hk as [(_ & ->) | (_ & ->)]; injection Ecc as <-; exact E0. }
+      destruct (numpy1_to_list _ _ _ _ Ecs) as (Hn & ->).
+      assert (Hlen : clen (Par (Some k') rn' (Numpy DUInt8 [n] d)) = zlen (map (leaf DUInt8) (take n d))).
+      { cbn [clen]. rewrite zlen_map, take_zlen by lia. reflexivity. }
+      destruct (list_view o c _ _ vsL HL Ecc E Hlen) as (Hl & abs & ls & -> & Hcut & Hit).
+      assert (Hd : Forall (fun x => byte_datum x = true) d) by (apply forallb_Forall_true; exact F).
+      assert (Hchars : chars_of None (Par (Some k') rn' (Numpy DUInt8 [n] d)) = Some (DUInt8, d)).
+      { destruct Hk as [(_ & ->) | (_ & ->)]; reflexivity. }
+      assert (TS : exists bb, Forall2 (fun l v => exists zs, bytes_of (VList l) = Ok zs /\ v = VStr bb zs) ls vs).
+      { destruct Hk as [(-> & _) | (-> & _)]; eexists; apply mapM_Forall2 in T;
+          (apply Forall2_map_l_inv in T; eapply Forall2_imp; [|exact T]); cbn beta; intros l v Hv;
+          (destruct (bytes_of (VList l)) as [zs|]; [|discriminate]); cbn [rmap] in Hv; injection Hv as <-; eauto. }
+      destruct TS as (bb & TS). pose proof (Forall2_len _ _ _ TS) as Hls.
+      rewrite zlen_map in *. assert (Hz : zlen vs = zlen ls) by (unfold zlen; lia).
+      split; [cbn [clen]; lia|]. rewrite Hz.
+      eapply Forall2_idx; [exact Hit | eapply Forall2_comp; [exact Hcut | exact TS]|]. cbn beta.
+      intros i [a b] v Hi (l & Hc & zs & Hb & ->). cbn [fst snd] in *.
+      exists [EStr zs]. split; [|cbn [jv]; constructor].
+      cbn [item]. rewrite Hi, Hchars. eapply string_item; eassumption.
+    + (* __record__ only *)
+      cbn [frag15 u64ok] in F, U. cbn [to_list] in T. inv_bind T. injection T as <-.
+      destruct (IHc F U _ E) as (Hlen & HF). split; [exact Hlen|].
+      eapply Forall2_imp; [|exact HF]. cbn beta. intros i v H. eapply item_ok_lift; [|exact H]. reflexivity.
 Qed.
 
 (** (b) on the fragment [frag15]: the events of to_json fold back into to_list, up to the documented rendering [jv] *)
@@ -1796,3 +1964,16 @@ Proof.
   - constructor; [|constructor]. split; [eapply events_wellformed_strong; exact H|]. split; [exact P | constructor].
   - cbn. auto.
 Qed.
+
+(* strings, a union and a named tuple are inside the fragment of tojson_value_partial *)
+Definition ex_layout2 : content :=
+  Union I64 [0; 1; 0] [0; 0; 1]
+    [Par (Some AString) None (ListOffset I64 [0; 2; 5] (Par (Some AChar) None (Numpy DUInt8 [5] [DZ 97; DZ 34; DZ 0; DZ 200; DZ 10])));
+     Par None (Some [112]) (Record [Numpy DBool [1] [DZ 1]; Numpy DFloat32 [1] [DInf true]] None 1)].
+
+Example tojson_value_ex2 :
+  frag15 ex_layout2 = true /\ u64ok ex_layout2 = true /\
+  to_list ex_layout2 = Ok [VStr true [97; 34]; VTup [VBool true; VNum (DInf true)]; VStr true [0; 200; 10]] /\
+  (do e <- tojson_events ex_opts ex_layout2; json_value e) =
+    Ok (VList [VStr true [97; 34]; VRec [([48], VBool true); ([49], VNum (DInf true))]; VStr true [0; 200; 10]], []).
+Proof. vm_compute. auto. Qed.
